@@ -86,6 +86,10 @@ pub fn pool(variant: u8) -> Vec<(&'static str, Value)> {
         ("dt_later", dt(1_577_880_001, 0, 0)),
         ("dt_nanos", dt(1_577_880_000, 5_000_000, 3600)),
         ("dt_midnight", dt(1_577_836_800, 0, 0)),
+        // local calendar day differs from the UTC day (date vs date-time comparisons)
+        ("dt_jan1_2330_-0500", dt(1_577_939_400, 0, -18000)),
+        ("dt_jan1_1000_+1400", dt(1_577_822_400, 0, 50400)),
+        ("dt_dec31_1900_-0500", dt(1_577_836_800, 0, -18000)),
         ("empty", Value::State(State::Empty)),
         ("blank", Value::State(State::Blank)),
         ("[]", arr(vec![])),
@@ -351,7 +355,7 @@ fn rand_oracle(c: &RandPair, obs: &mut Obs) -> Check {
 }
 
 pub fn run(ctx: &Ctx) {
-    ctx.set_rule("E2: every ordered pair of a 70-value pool (nil, booleans, integers incl. 2^53 and the i64 bounds, floats incl. +-0.0, 2^53, infinities, strings empty / blank / numeric-looking / 'true' / mixed case / non-ASCII / date-looking, dates, date-times denoting one instant in three offsets, empty/blank markers, arrays and objects nested two deep, two-key and six-key objects) with every container built independently three ways (insertion order, reverse order, after a different capacity history); each pair is compared through Value ==/partial_cmp/< <= > >=, ValueCow (Owned x Borrowed), ValueViewCmp, typed PartialEq, and through templates (== != <> < > <= >=, unless, case/when, contains, uniq); the whole pair matrix is recomputed in 4 fresh processes (different hash seeds) and must be identical. E1: random pairs of recursive values and their rebuilt copies. Oracle: the coherence laws of the statement. Non-trivial = cross-kind pair or a container; distinct by pair.");
+    ctx.set_rule("E2: every ordered pair of a 73-value pool (nil, booleans, integers incl. 2^53 and the i64 bounds, floats incl. +-0.0, 2^53, infinities, strings empty / blank / numeric-looking / 'true' / mixed case / non-ASCII / date-looking, dates, date-times denoting one instant in three offsets, empty/blank markers, arrays and objects nested two deep, two-key and six-key objects) with every container built independently three ways (insertion order, reverse order, after a different capacity history); each pair is compared through Value ==/partial_cmp/< <= > >=, ValueCow (Owned x Borrowed), ValueViewCmp, typed PartialEq, and through templates (== != <> < > <= >=, unless, case/when, contains, uniq); the whole pair matrix is recomputed in 4 fresh processes (different hash seeds) and must be identical. E1: random pairs of recursive values and their rebuilt copies. Oracle: the coherence laws of the statement. Non-trivial = cross-kind pair or a container; distinct by pair.");
     ctx.assume("NaN is excluded (statement); transitivity is not claimed");
     let n = pool(0).len() as u64;
     ctx.exhaustive("pool_pairs", n * n * 2, move |i| Some(PoolPair { i: (i / 2 / n) as usize, j: (i / 2 % n) as usize, v: (i % 2) as u8 }), pool_oracle);
